@@ -674,4 +674,111 @@ def runCtl {σ : Type} : List (Nat × Bool) → World σ → World σ
   | (j, true) :: rest, w => runCtl rest ((enter j w).getD w)
   | (j, false) :: rest, w => runCtl rest (exit j w)
 
+/-! ## Round 4: flat enter / exit / operation words, captured callables
+
+Additional; nothing above is changed. -/
+
+/-- one event of a flat history: a raw `__enter__`, a raw `__exit__` (called with `(None, None, None)`
+    or with the triple of an exception that is propagating: `exc`), or user code that calls
+    instrumented operations -/
+inductive FEv (σ : Type) where
+  | enter (j : Nat)
+  /-- `Journal.__exit__(exc_type, exc_value, exc_tb)` (_journaling.py 171-175) does not look at its
+      arguments and returns None: the same effect on both paths; an exception keeps propagating -/
+  | exit (j : Nat) (exc : Bool)
+  | op (p : Prog σ)
+
+/-- A flat history.  A refused `__enter__` (RuntimeError) changes nothing; `exit` of a journal that was
+    never entered changes nothing (KeyError before the first assignment); the outcome of user code is
+    logged and the history goes on (the caller caught the exception, or an `ExitStack` unwinds). -/
+def runFlat {σ : Type} (cfg : Cfg σ) (fuel : Nat) : List (FEv σ) → World σ → World σ
+  | [], w => w
+  | .enter j :: r, w => runFlat cfg fuel r ((enter j w).getD w)
+  | .exit j _ :: r, w => runFlat cfg fuel r (exit j w)
+  | .op p :: r, w =>
+      let x := runProg (dispatch cfg fuel) p w
+      runFlat cfg fuel r { x.1 with log := x.1.log ++ [x.2] }
+
+/-- stack discipline: `st` = the journals that are open, innermost first -/
+def wbAux {σ : Type} : List Nat → List (FEv σ) → Bool
+  | st, [] => st.isEmpty
+  | st, .enter j :: r => !st.contains j && wbAux (j :: st) r
+  | st, .exit j _ :: r =>
+      match st with
+      | t :: st' => t == j && wbAux st' r
+      | [] => false
+  | st, .op _ :: r => wbAux st r
+
+/-- properly nested: every `exit` leaves the innermost open journal, no journal object is entered
+    while it is open, nothing is left open -/
+def WellBracketed {σ : Type} (u : List (FEv σ)) : Prop := wbAux [] u = true
+
+instance {σ : Type} (u : List (FEv σ)) : Decidable (WellBracketed u) := by
+  unfold WellBracketed; infer_instance
+
+/-- journals entered somewhere in the word -/
+def flatEnters {σ : Type} : List (FEv σ) → List Nat
+  | [] => []
+  | .enter j :: r => j :: flatEnters r
+  | _ :: r => flatEnters r
+
+/-- journals exited somewhere in the word -/
+def flatExits {σ : Type} : List (FEv σ) → List Nat
+  | [] => []
+  | .exit j _ :: r => j :: flatExits r
+  | _ :: r => flatExits r
+
+/-- A callable taken from an instance (`m = graph.append`) or from the class (`f = Graph.append`;
+    `Node.name.fset`): Python looks the attribute up at that moment, so the callable is whatever the
+    class table held THEN, bound to the receiver; later changes of the table do not affect it. -/
+structure Captured where
+  impl : Impl
+  self : Obj
+  deriving DecidableEq, Repr
+
+/-- `m = getattr(obj, name)` at world `w` -/
+def capture {σ : Type} (slot : Nat) (self : Obj) (w : World σ) : Captured :=
+  { impl := w.table slot, self := self }
+
+/-- `m(arg)`: the captured implementation runs (its wrappers, if any, belong to the journals that
+    were entered when it was captured); the calls made by the original's body go through the table
+    that is current NOW. -/
+def callCaptured {σ : Type} (cfg : Cfg σ) : Nat → Captured → Val → World σ → World σ × Outcome
+  | 0, _, _, w => (w, .raise fuelExn)
+  | f + 1, c, arg, w => runImpl cfg (runOrig cfg (dispatch cfg f)) c.impl c.self arg w
+
+/-- proposed fix D471 (proposed_fixes/D471.diff): a wrapper whose journal is not active only forwards -/
+def runImplGuarded {σ : Type} (cfg : Cfg σ)
+    (body : Nat → Obj → Val → World σ → World σ × Outcome) :
+    Impl → Obj → Val → World σ → World σ × Outcome
+  | .orig k, self, arg, w => body k self arg w
+  | .wrap j k inner, self, arg, w =>
+      match kindOf k with
+      | .init =>
+          -- the constructor wrapper looks at `journal._active` where it would record
+          let r := runImplGuarded cfg body inner self arg w
+          match r.2 with
+          | .ret _ =>
+              if !(r.1.journals j).active then (r.1, .ret .none) else
+              match cfg.details k self arg r.1.ir with
+              | some s' => (record j k self { r.1 with ir := s' }, .ret .none)
+              | none => (r.1, .raise detailsExn)
+          | .raise e => (r.1, .raise e)
+      | kind =>
+          -- the other three look at it first and only forward when it is false
+          if !(w.journals j).active then runImplGuarded cfg body inner self arg w else
+          match cfg.details k self arg w.ir with
+          | none => (w, .raise detailsExn)
+          | some s' =>
+              let r := runImplGuarded cfg body inner self arg { w with ir := s' }
+              match r.2 with
+              | .ret v =>
+                  (record j k (targetOf cfg.owner k self) r.1,
+                    .ret (if kind = .setter then .none else v))
+              | .raise e => (r.1, .raise e)
+
+def callCapturedGuarded {σ : Type} (cfg : Cfg σ) : Nat → Captured → Val → World σ → World σ × Outcome
+  | 0, _, _, w => (w, .raise fuelExn)
+  | f + 1, c, arg, w => runImplGuarded cfg (runOrig cfg (dispatch cfg f)) c.impl c.self arg w
+
 end IrVerif.Journal
